@@ -21,8 +21,10 @@ against Val_Trace; decimals and ints of all magnitudes are driven from Python
 round trip of the bits).
 """
 import hashlib
+import json
 import math
 import random
+import re
 
 from .common import MachineryError
 from .tla import run_tlc
@@ -126,6 +128,142 @@ def _toks(ts):
     return " ".join(f"{t['t']}:{M.text(t['s'])!r}" for t in ts)
 
 
+def short(s, n=80):
+    """a key part of bounded length (long texts are cut and carry a hash)"""
+    s = str(s)
+    return s if len(s) <= n else s[:n - 16] + "~" + hashlib.sha1(s.encode("utf-8", "replace")).hexdigest()[:8]
+
+
+# ------------------------------------------ the paths by which a program gets the text
+# ValLaws!RenderObservers: the statement observes "str(value) / string(v)".  str(value) is the renderer
+# (__repr__); a program obtains the text of a value through the conversion (asString) of its class instead:
+# string(v), concatenation with a string, interpolation, join, print.  The value is handed over as `cv`.
+PATHS_ANY = ["string", "interp", "join", "print", "println", "elem"]
+PATHS_ATOMIC = ["string", "interp", "join", "print", "println", "elem", "concat", "concat-left"]
+_PATH_SRC = {
+    "string": "string(cv)", "interp": "s('{cv}')", "join": "join([cv], '')",
+    "print": "do def o_ = c08io->str_output(); print(cv, o_); c08io->get_output_string(o_) end",
+    "println": "do def o_ = c08io->str_output(); println(cv, o_); c08io->get_output_string(o_) end",
+    "elem": "string([cv])", "concat": "'' + cv", "concat-left": "cv + ''",
+}
+PATH_SHOWN = {"string": "string(v)", "interp": "s('{v}')", "join": "join([v], '')", "print": "print(v, out)",
+              "println": "println(v, out)", "elem": "string([v]) without the brackets", "concat": "'' + v",
+              "concat-left": "v + ''"}
+# the kinds whose conversion IS the text form (ValLaws!RenderStated); a string converts to itself, NULL to '',
+# a pattern to its payload (documented): those are compared with the model as drift only
+STATED_TYPES = ("boolean", "int", "decimal", "date", "list", "set", "map")
+ATOMIC_TYPES = ("boolean", "int", "decimal", "date", "string", "pattern")
+
+
+def text_paths(cx, v, name=None):
+    """{observer: text | ('fail', why)}: the text of v by every path of ValLaws!RenderObservers that is defined
+    for its kind, taken from the interpreter (one program).  name: the value is already bound to that name."""
+    im = cx.im
+    if not getattr(cx, "_c08io", False):
+        # the observers as functions of the language (parsed once)
+        im.run("require IO as c08io")
+        for fname, ps in (("c08_paths_any", PATHS_ANY), ("c08_paths_atomic", PATHS_ATOMIC)):
+            o = im.run(f"def {fname}(cv) [" + ", ".join(_PATH_SRC[p] for p in ps) + "]")
+            if o[0] != "val":
+                raise MachineryError(f"cannot define the observers: {o}")
+        cx._c08io = True
+    if name is None:
+        im.put("cv", v)
+        name = "cv"
+    typ = M.host(lambda: v.type())
+    atomic = typ[0] == "val" and typ[1] in ATOMIC_TYPES
+    paths = PATHS_ATOMIC if atomic else PATHS_ANY
+    o = im.run(f"{'c08_paths_atomic' if atomic else 'c08_paths_any'}({name})")
+    cx.n_eval += len(paths)
+    out = {}
+    if o[0] == "val" and isinstance(o[1], V.ValueList) and len(o[1].value) == len(paths):
+        got = o[1].value
+    else:                               # one path failed: take them one by one
+        got = []
+        for p in paths:
+            oo = im.run(_PATH_SRC[p].replace("cv", name))
+            got.append(oo[1] if oo[0] == "val" else ("fail", f"{oo[0]} {str(oo[1])[:80]}"))
+    for p, g in zip(paths, got):
+        if isinstance(g, V.ValueString):
+            t = g.value
+            if p == "elem":
+                t = t[1:-1] if t.startswith("[") and t.endswith("]") else ("fail", "string([v]) is " + t[:40])
+            elif p == "println":
+                t = t[:-1] if t.endswith("\n") else ("fail", "println wrote no line end: " + t[-20:])
+            out[p] = t
+        else:
+            out[p] = g if isinstance(g, tuple) else ("fail", "not a string: " + str(g)[:40])
+    return out
+
+
+def check_text_paths(cx, v, what, key, case, txt=None, name=None):
+    """every path gives THE text form (that of str(value)) for the kinds whose conversion is the text form"""
+    typ = M.host(lambda: v.type())
+    if typ[0] != "val" or typ[1] not in STATED_TYPES:
+        return {}
+    if txt is None:
+        t = render(v)
+        if t[0] != "val":
+            return {}
+        txt = t[1]
+    got = text_paths(cx, v, name)
+    other = []
+    for p in sorted(got):
+        g = got[p]
+        if isinstance(g, tuple):
+            cx.run.drift("text-path-gives-no-text", {"path": p, "of": what[:60], "got": g[1]})
+        elif g != txt:
+            other.append((p, g))
+    if other:
+        p, g = other[0]
+        cx.vio(f"text-path:{key}", f"text-path: {PATH_SHOWN[p]} of {what} is {short(g, 60)!r}, but the text form "
+                                   f"str(value) is {short(txt, 60)!r}: two texts of one value (paths that differ: "
+                                   f"{', '.join(PATH_SHOWN[q] for q, _ in other)})", case)
+    return got
+
+
+def check_model_paths(cx, u, res):
+    """binding A for ValLaws!RenderVia: every observer on every value of the universe"""
+    rows = {r["i"]: r for r in res.records("VIA")}
+    if sorted(rows) != list(range(1, u["n"] + 1)):
+        raise MachineryError("ValLaws VIA export incomplete")
+    n = 0
+    for i in range(1, u["n"] + 1):
+        a = u["v"][i]
+        via = {m["ob"]: m for m in rows[i]["via"] if m["ok"]}
+        if not via:
+            continue
+        v = M.build(a, cx.im.refs)
+        t = render(v)
+        if t[0] != "val":
+            continue
+        got = text_paths(cx, v)
+        key = lit_key(a)
+        other = []
+        for ob, m in sorted(via.items()):
+            if ob not in got:
+                continue
+            n += 1
+            g, want = got[ob], M.text(m["txt"])
+            if ob == "println":
+                want = want[:-1]
+            if isinstance(g, tuple):
+                cx.run.drift("text-path-gives-no-text", {"path": ob, "of": key, "got": g[1]})
+            elif m["stated"]:
+                # judged against the renderer of the implementation (the model text of a set with an unstated
+                # enumeration order may differ from it; check_value deals with the renderer itself)
+                if g != t[1]:
+                    other.append((ob, g))
+            elif g != want:
+                cx.run.drift("conversion-differs-from-model", {"path": ob, "of": key, "impl": g[:60], "model": want[:60]})
+        if other:
+            ob, g = other[0]
+            cx.vio(f"text-path:{key}", f"text-path: {PATH_SHOWN[ob]} of {key} is {g[:60]!r}, but the text form "
+                                       f"str(value) is {t[1][:60]!r}: two texts of one value (paths that differ: "
+                                       f"{', '.join(PATH_SHOWN[q] for q, _ in other)})", {"kind": "paths", "v": a})
+    return n
+
+
 # ------------------------------------------------------------- fixed cases
 def fixed_cases():
     """values and construction histories outside what the random generator
@@ -134,6 +272,10 @@ def fixed_cases():
     vals = [
         # patterns whose payload interferes with the // delimiters
         P("a//b"), P("/a"), P("a/"), P(""), L([P("x//")]),
+        # ... and payloads holding `/` or a backslash that the syntax CAN express
+        P("a/b"), P("a\\/b"), P("\\d+/\\d+"), P("^/usr/(bin|lib)$"), P("\\\\"), P("a'b"), P("a b"),
+        P("#x"), P("a/b/c"), P("<</>>"), L([P("1/2"), P("1")]), Mp([I(1)], [P("x/y")]), St([P("a/b"), P("a")]),
+        Mp([P("k/1")], [L([P("v/1")])]),
         # NULL as a map key
         Mp([N()], [I(1)]), Mp([I(1), N()], [I(2), N()]), L([Mp([N()], [S("a")])]),
         # nested brackets
@@ -183,10 +325,10 @@ def check_rep_cases(cx):
             texts.append(str(c))
         cx.n_eval += 2
         if texts[0] != texts[1]:
-            cx.vio(f"equal-representatives:{desc}", f"construction-order: equal containers render as "
-                                                    f"{texts[0]!r} and {texts[1]!r} depending on which equal "
-                                                    f"element was inserted first",
-                   {"kind": "rep", "desc": desc})
+            what = (f"construction-order: equal containers render as {texts[0]!r} and {texts[1]!r} depending on which "
+                    f"equal element was inserted first")
+            cx.vio(f"equal-representatives:{desc}", what, {"kind": "rep", "desc": desc})
+            same_symptom(cx, f"equal-representatives:{desc}", texts, [], what, {"kind": "rep", "desc": desc})
     import itertools
     for desc, items in MIXED_CASES:
         texts = set()
@@ -225,6 +367,270 @@ def check_identifier_keys(cx):
         if o[0] != "val" or ow[0] != "val" or M.vkey(o[1]) != M.vkey(ow[1]):
             cx.vio("identifier-key:" + src, f"literal: {src} evaluates to {o[1] if o[0] == 'val' else o}, "
                                             f"expected the value of {want}", {"kind": "prog", "src": src})
+
+
+# ------------------------------------------------- ValText: patterns (binding A)
+def check_patterns(cx, res):
+    """every payload TLC grew (mode "pat"): the pattern value is built by the constructor, by pattern('...') and -
+    where the model says the syntax can express it - by the literal; one text; for the expressible payloads the
+    text evaluates back to the pattern, alone and inside a list, a set and a map.  The payloads the syntax cannot
+    express (ValText!PatWritable fails: empty, `/` at an end, `//` inside) are the class of the known findings;
+    they are counted, and what the scanner makes of them is compared with ValText!ScanPat as drift."""
+    im = cx.im
+    rows = {}
+    for r in res.records("PAT"):
+        rows.setdefault(M.text(r["p"]), r)
+    stats = {"payloads": len(rows), "values": 0, "writable": 0, "unwritable_fail_as_modelled": 0}
+    for p in sorted(rows):
+        r = rows[p]
+        made = M.host(lambda: V.ValuePattern(p))
+        if made[0] != "val":
+            continue                                   # not a regular expression: no such pattern value
+        v = made[1]
+        stats["values"] += 1
+        a = M.a_pat(p)
+        key = f"pattern({M.quote(p)})"
+        case = {"kind": "pattern", "p": p}
+        t = render(v)
+        cx.n_eval += 1
+        if t[0] != "val":
+            cx.vio(f"render:{key} !{t[1]}", f"host-exception: rendering {key} raised {t[1]}", case)
+            continue
+        txt = t[1]
+        # one text whatever built the value
+        o = im.run(f"string([pattern({M.quote(p)})])")
+        cx.n_eval += 1
+        if o[0] == "val" and isinstance(o[1], V.ValueString) and o[1].value[1:-1] != txt:
+            cx.vio(f"construction-order:{key}", f"construction-order: {key} renders as {txt!r} built by the constructor "
+                                                f"and as {o[1].value[1:-1]!r} built by pattern()", case)
+        if txt != M.text(r["txt"]):
+            cx.run.drift("pattern-text-differs-from-model", {"p": p, "impl": txt, "model": M.text(r["txt"])})
+        # the scanner on the text (ValText!ScanPat): drift only - the scanner is C01's subject
+        try:
+            toks = M.lex(txt)
+        except Exception as e:  # noqa: BLE001
+            toks = [("unscannable", type(e).__name__)]
+        if r["used"] and (toks[0][0] != "pattern" or toks[0][1] != M.text(r["txt"])[:r["used"]]):
+            cx.run.drift("pattern-scan-differs-from-model", {"p": p, "impl": str(toks[:2]), "model_used": r["used"]})
+        forms = [("%s", lambda w: w), ("[%s]", lambda w: w.value[0]), ("<<%s>>", lambda w: next(iter(w.value))),
+                 ("<<<1 => %s>>>", lambda w: next(iter(w.value.values()))), ("[%s, 1]", lambda w: w.value[0])]
+        failed = None
+        for form, wrap in forms:
+            src = form % txt
+            o = im.run(src)
+            cx.n_eval += 1
+            if o[0] != "val":
+                failed = f"the text {src!r} does not evaluate: {o[0]} {str(o[1])[:60]}"
+            else:
+                got = M.host(lambda: (lambda w: (isinstance(w, V.ValuePattern), w.value == p))(wrap(o[1])))
+                if got != ("val", (True, True)):
+                    failed = f"the text {src!r} evaluates to {str(o[1])[:40]} ({o[1].type()}), not the pattern"
+                elif str(o[1]) != src:
+                    failed = f"the value of {src!r} renders as {str(o[1])[:40]!r}"
+            if failed:
+                break
+        if r["w"]:
+            stats["writable"] += 1
+            if failed:
+                cx.vio(f"pattern-round-trip:{key}", f"round-trip: {key}: {failed}", case)
+            # the literal itself
+            o = im.run("//" + p + "//")
+            cx.n_eval += 1
+            if o[0] != "val" or M.vkey(o[1]) != M.akey(a):
+                cx.run.drift("pattern-literal-does-not-give-the-payload", {"p": p, "got": str(o[1])[:40]})
+            elif str(o[1]) != txt:
+                cx.vio(f"construction-order:{key}", f"construction-order: {key} renders as {txt!r} built by the "
+                                                    f"constructor and as {str(o[1])!r} written as a literal", case)
+        elif failed:
+            stats["unwritable_fail_as_modelled"] += 1
+        else:
+            cx.run.drift("unwritable-pattern-round-trips", {"p": p, "text": txt})
+    return stats
+
+
+# ------------------------------------------- ValText: object histories (binding A)
+def is_inn(a):
+    return a["k"] == "ref" and a["n"][0] == 9
+
+
+def hist_literal(a):
+    """source text of a model value of ValText; the place holder of the inner object is the variable hn"""
+    if is_inn(a):
+        return "hn"
+    k = a["k"]
+    if k == "list":
+        return "[" + ", ".join(hist_literal(x) for x in a["items"]) + "]"
+    if k == "set" and a["items"]:
+        return "<< " + ", ".join(hist_literal(x) for x in a["items"]) + " >>"
+    if k == "map" and a["items"]:
+        return "<<< " + ", ".join(hist_literal(x) + " => " + hist_literal(y)
+                                  for x, y in zip(a["items"], a["vals"])) + " >>>"
+    return M.literal(a)
+
+
+def hist_step_src(e):
+    var = "ho" if e["who"] == "outer" else "hn"
+    pre = e["pre"]["o"] if e["who"] == "outer" else e["pre"]["n"]
+    kind, op, i = pre["k"], e["op"], e["i"]
+    x, y = hist_literal(e["x"]), hist_literal(e["y"])
+    if op == "append":
+        return f"append({var}, {x})"
+    if op == "put":
+        return f"put({var}, {x}, {y})"
+    if op == "remove":
+        return f"remove({var}, {x})"
+    if op == "insert":
+        return f"insert_at({var}, {i}, {x})"
+    if op == "delete":
+        return f"delete_at({var}, {i})"
+    if op == "assign":
+        return f"{var}[{x}] = {y}" if kind == "map" else f"{var}[{i}] = {x}"
+    if op == "addassign":
+        return f"{var}[{x}] += 1" if kind == "map" else f"{var}[{i}] += 1"
+    raise MachineryError("ValText: unknown step " + op)
+
+
+# what a program may do with a value between two changes: everything here reads (renders, orders, hashes,
+# compares) and may fill whatever the value classes keep about themselves
+HIST_TOUCH = ("def c08_touch(ho, hn, hq) do [ho < hq, hq < ho, sorted([ho, hq]), ho == hq, compare(ho, hq), <<ho>>, "
+              "<<<ho => 1>>>, [ho], hn < hq, sorted([hn, hq]), <<hn>>, string(hn), s('{hn}'), ho in [ho], length(ho)] "
+              "catch all NULL end")
+
+
+def check_histories(cx, res, limit=None):
+    """a tour through every transition of ValText's history machine.  One pair of implementation objects per
+    root; each step is a one-line program; after each step the object must hold the model's value (else drift and
+    a fresh start) and every path to its text must give the text of a freshly evaluated literal of that value."""
+    im = cx.im
+    skey = lambda st: json.dumps([st["o"], st["n"]], sort_keys=True)  # noqa: E731
+    edges, seen = {}, set()
+    for e in res.records("EDGE"):
+        k = json.dumps(e, sort_keys=True)
+        if k in seen:
+            continue
+        seen.add(k)
+        e["src"] = hist_step_src(e)
+        e["pk"], e["qk"] = skey(e["pre"]), skey(e["post"])
+        edges.setdefault(e["pk"], []).append(e)
+    for lst in edges.values():
+        lst.sort(key=lambda e: (e["who"], e["op"], e["src"]))
+    roots = {}
+    for r in res.records("ROOT"):
+        roots.setdefault(skey(r), r)
+    stats = {"edges": len(seen), "steps": 0, "restarts": 0, "ops": {}}
+    covered = set()
+    fresh_cache = {}
+    if im.run(HIST_TOUCH)[0] != "val":
+        raise MachineryError("cannot define c08_touch")
+
+    def start(st):
+        im.run("def hn = " + M.literal(st["n"]))
+        im.run("def ho = " + hist_literal(st["o"]))
+        im.run("def hq = " + {"list": "[0]", "set": "<<0>>", "map": "<<<0 => 0>>>"}[st["o"]["k"]])
+        stats["restarts"] += 1
+        observe(None, st, {"o": st["o"], "n": st["n"]}, None)
+
+    def fresh_text(val):
+        lit = M.literal(val)
+        if lit not in fresh_cache:
+            o = im.run(f"string({lit})")
+            cx.n_eval += 1
+            fresh_cache[lit] = o[1].value if o[0] == "val" and isinstance(o[1], V.ValueString) else None
+        return lit, fresh_cache[lit]
+
+    def deref(a, inner):
+        if is_inn(a):
+            return inner
+        if a["k"] in ("list", "set", "map"):
+            return M.mk(a["k"], items=[deref(x, inner) for x in a["items"]], vals=[deref(x, inner) for x in a["vals"]])
+        return a
+
+    def observe(e, pre, post, val):
+        """-> False when the object does not hold the model's value (the caller starts afresh)"""
+        val = val if val is not None else deref(post["o"], post["n"])
+        o = im.run("ho")
+        if o[0] != "val" or M.vkey(o[1]) != M.akey(val):
+            cx.run.drift("history-object-differs-from-model",
+                         {"step": e["src"] if e else "start", "model": M.literal(val), "impl": str(o[1])[:80]})
+            return False
+        obj = o[1]
+        lit, want = fresh_text(val)
+        if want is None:
+            return True
+        texts = {"str(value)": render(obj)}
+        for p, g in text_paths(cx, obj, "ho").items():
+            texts[PATH_SHOWN[p]] = ("val", g) if not isinstance(g, tuple) else g
+        cx.n_eval += 1
+        for how in sorted(texts):
+            t = texts[how]
+            if t[0] != "val":
+                continue
+            if t[1] != want:
+                hist = (f"{hist_literal(pre['o'])} with hn = {M.literal(pre['n'])}; {e['src']}" if e
+                        else f"{hist_literal(post['o'])} with hn = {M.literal(post['n'])}")
+                cx.vio(f"history:{hist}", f"history: after `{e['src'] if e else 'the definition'}` on ho = "
+                                          f"{hist_literal(pre['o'])}, hn = {M.literal(pre['n'])} (rendered, ordered and "
+                                          f"hashed before) the object holds the value {lit}, whose text is {want!r}, "
+                                          f"but {how} gives {t[1]!r}: the text depends on the history",
+                       {"kind": "history", "pre": pre, "edge": {k: e[k] for k in ("who", "op", "i", "x", "y", "src")}
+                        if e else None})
+                break
+        im.run("c08_touch(ho, hn, hq)")
+        cx.n_eval += 1
+        return True
+
+    def path_to_uncovered(cur):
+        """shortest path of transitions from cur to a state with an uncovered one"""
+        prev = {cur: None}
+        queue = [cur]
+        while queue:
+            s = queue.pop(0)
+            if any(id(e) not in covered for e in edges.get(s, [])):
+                path = []
+                while prev[s] is not None:
+                    s, e = prev[s]
+                    path.append(e)
+                return list(reversed(path))
+            for e in edges.get(s, []):
+                t = e["qk"]
+                if t not in prev:
+                    prev[t] = (s, e)
+                    queue.append(t)
+        return None
+
+    for rk in sorted(roots):
+        cur = rk
+        start(roots[rk])
+        while limit is None or stats["steps"] < limit:
+            nxt = [e for e in edges.get(cur, []) if id(e) not in covered]
+            if nxt:
+                todo = [nxt[0]]
+            else:
+                todo = path_to_uncovered(cur)
+                if todo is None:
+                    # some changes cannot be undone (a character of the string that was overwritten): back to the root
+                    if cur == rk or path_to_uncovered(rk) is None:
+                        break
+                    cur = rk
+                    start(roots[rk])
+                    continue
+            for e in todo:
+                o = im.run(e["src"])
+                cx.n_eval += 1
+                stats["steps"] += 1
+                covered.add(id(e))
+                label = f"{e['who']} {e['pre']['o' if e['who'] == 'outer' else 'n']['k']} {e['op']}"
+                stats["ops"][label] = stats["ops"].get(label, 0) + 1
+                ok = o[0] == "val"
+                if not ok:
+                    cx.run.drift("history-step-fails", {"step": e["src"], "got": f"{o[0]} {str(o[1])[:60]}"})
+                ok = ok and observe(e, e["pre"], e["post"], e["val"])
+                cur = e["qk"]
+                if not ok:
+                    start(e["post"])
+                    break
+    stats["covered"] = len(covered)
+    return stats
 
 
 # ------------------------------------------------- numbers made by natives
@@ -281,6 +687,7 @@ def check_made_number(cx, src, w, where=""):
             cx.vio(f"maker-decimal-numeral:{key}", f"shape: {src} returned a value of type decimal{where and ' at ' + where} "
                                                    f"that renders as {txt!r}: not a numeral with a fractional part", case)
             return
+    check_text_paths(cx, w, f"the {typ} that {src} returned{where and ' at ' + where}", "maker " + key, case, txt)
     o = cx.im.run(txt)
     cx.n_eval += 1
     if o[0] != "val":
@@ -379,6 +786,9 @@ MAKER_PROGRAMS = [
     "1000000 * 1000000 * 1000000", "9007199254740993 + 0.0", "9007199254740993 * 1.0", "9007199254740992 / 1.0",
     "string_length('abc')", "ord('a')", "char_code('a')", "length(split('a b c'))", "length(chunks([1, 2, 3], 2))",
     "process_lines(str_input('a\\nb'), fn(l) 1)", "length(lines('a\\nb'))",
+    # ints longer than the host converts to text in one piece
+    "require Math; Math->pow(10, 5000)", "def c08x = 1; for c08i in range(4400) do c08x = c08x * 10; end; [c08x, -c08x]",
+    "bit_shift_left(1, 31) * bit_shift_left(1, 31)",
 ]
 
 
@@ -408,10 +818,11 @@ def check_made_from_magnitudes(cx, xs, ints):
                 n += 1
     for m in ints:
         for op in ("decimal", "floor", "round", "abs"):
-            o = cx.im.run(f"{op}({m})")
+            src = f"{op}({int_text(m)})"
+            o = cx.im.run(src)
             cx.n_eval += 1
             if o[0] == "val" and o[1].type() in ("int", "decimal"):
-                check_made_number(cx, f"{op}({m})", o[1])
+                check_made_number(cx, src, o[1])
                 n += 1
     return n
 
@@ -455,6 +866,7 @@ def check_decimal(cx, x):
     if not ok:
         cx.vio(f"decimal-numeral:{key}", f"shape: the decimal {x!r} renders as {txt!r}, which scans as {toks}: "
                                          f"not a numeral with a fractional part", case)
+    check_text_paths(cx, v, f"the decimal {x!r}", key, case, txt)
     for form, wrap in (("", lambda w: w), ("[%s]", lambda w: w.value[0]), ("<<%s>>", lambda w: next(iter(w.value))),
                        ("<<<1 => %s>>>", lambda w: next(iter(w.value.values())))):
         src = (form % txt) if form else txt
@@ -480,20 +892,61 @@ def check_decimal(cx, x):
 
 def check_int(cx, n):
     v = V.ValueInt(n)
-    txt = str(v)
-    key = f"int {n}"
-    case = {"kind": "int", "n": str(n)}
+    t = render(v)
+    key = "int " + int_name(n)
+    case = {"kind": "int", "n": hex(n)}
     cx.n_eval += 1
+    if t[0] != "val":
+        cx.vio(f"render:{key} !{t[1]}", f"host-exception: rendering the int {int_name(n)} raised {t[1]} {t[2][:60]}", case)
+        return
+    txt = t[1]
     toks = M.lex(txt)
     neg = txt.startswith("-")
     body = txt[1:] if neg else txt
-    if [t for t, _ in toks] != (["operator", "int"] if neg else ["int"]) or toks[-1][1] != body or not body.isdigit():
-        cx.vio(f"int-numeral:{key}", f"shape: the int {n} renders as {txt!r}: not an integer numeral", case)
-    o = cx.im.run(txt)
-    if o[0] != "val" or not isinstance(o[1], V.ValueInt) or o[1].value != n or isinstance(o[1].value, float) \
-            or str(o[1]) != txt:
-        cx.vio(f"int-round-trip:{key}", f"round-trip: the text {txt!r} of the int {n} evaluates to "
-                                        f"{o[1] if o[0] == 'val' else o}", case)
+    if [t for t, _ in toks] != (["operator", "int"] if neg else ["int"]) or toks[-1][1] != body or not body.isdigit() \
+            or not body.isascii():
+        cx.vio(f"int-numeral:{key}", f"shape: the int {int_name(n)} renders as {short(txt, 60)!r}: not an integer numeral",
+               case)
+    check_text_paths(cx, v, f"the int {int_name(n)}", key, case, txt)
+    for form, wrap in (("%s", lambda w: w), ("[%s]", lambda w: w.value[0]), ("<<<1 => %s>>>", lambda w: w.value[V.ValueInt(1)])):
+        src = form % txt
+        o = cx.im.run(src)
+        cx.n_eval += 1
+        bad = None
+        if o[0] != "val":
+            bad = f"does not evaluate: {o[0]} {str(o[1])[:80]}"
+        else:
+            got = M.host(lambda: (lambda w: (isinstance(w, V.ValueInt), type(w.value) is int, w.value == n))(wrap(o[1])))
+            t2 = render(o[1])
+            if got != ("val", (True, True, True)):
+                bad = f"evaluates to another value ({short(t2[1], 40)}; int value / host int / equal = {got[1]})"
+            elif t2 != ("val", src):
+                bad = f"evaluates to a value that renders as {short(t2[1], 40)!r}"
+        if bad:
+            cx.vio(f"int-round-trip:{key}", f"round-trip: the text {short(src, 60)!r} of the int {int_name(n)} {bad}", case)
+            break
+
+
+def int_text(n):
+    """the decimal digits of a host int of any length (the harness's own, not the implementation's)"""
+    m, pieces = abs(n), []
+    while m >= 10 ** 1000:
+        m, r = divmod(m, 10 ** 1000)
+        pieces.append(str(r).zfill(1000))
+    pieces.append(str(m))
+    return ("-" if n < 0 else "") + "".join(reversed(pieces))
+
+
+def int_name(n):
+    """the int itself, or for a long one its length and a hash (keys and messages stay short)"""
+    if abs(n) < 10 ** 60:
+        return str(n)
+    m, digits = abs(n), 0
+    while m >= 10 ** 1000:
+        m //= 10 ** 1000
+        digits += 1000
+    digits += len(str(m))
+    return f"{'-' if n < 0 else ''}{digits}-digit int #{hashlib.sha1(hex(n).encode()).hexdigest()[:10]}"
 
 
 # ---------------------------------------------------------------- binding B
@@ -503,7 +956,32 @@ def data_scalar(rng, kind=None):
         alpha = M.ALPHA + ['"', "\r", "}", ">", "x", "n", "0"]
         n = rng.choice([0, 1, 1, 2, 3, 4, 6])
         return M.a_str("".join(rng.choice(alpha) for _ in range(n)))
+    if kind == "pat":
+        # payloads around the delimiter: `/` and the backslash inside, quotes, blanks, `#`; only the shapes the
+        # pattern syntax cannot express at all (ValText!PatWritable fails: the known findings) are left out
+        for _ in range(20):
+            p = "".join(rng.choice(PAT_ALPHA) for _ in range(rng.randint(1, 4)))
+            if pat_writable(p) and valid_regex(p):
+                return M.a_pat(p)
+        return M.a_pat("a/b")
     return M.gen_scalar(rng, kind)
+
+
+PAT_ALPHA = "aAb!./\\'# d+|"
+
+
+def pat_writable(p):
+    """ValText!PatWritable (used to choose inputs only; the model is checked by TLC)"""
+    return p != "" and not p.startswith("/") and not p.endswith("/") and "//" not in p
+
+
+def valid_regex(p):
+    """a pattern value exists only for a payload the host accepts as a regular expression"""
+    try:
+        re.compile(p)
+        return True
+    except (re.error, OverflowError, RecursionError):
+        return False
 
 
 def no_null_keys(a):
@@ -529,6 +1007,7 @@ def render_event(cx, a, rng):
         toks = [{"t": "unscannable", "s": []}]
     e = {"op": "render", "v": a, "toks": toks, "cons": cons, "data": True, "rtok": False, "rt": M.a_null(),
          "same": False, "txt": txt}
+    check_text_paths(cx, M.build(a, im.refs), lit_key(a), lit_key(a), {"kind": "paths", "v": a}, txt)
     o = im.run(txt)
     cx.n_eval += 1
     if o[0] == "val":
@@ -541,6 +1020,35 @@ def render_event(cx, a, rng):
     return e
 
 
+# The known findings of C08 are matched by key alone (harness/common.py).  A change of the code that makes one of
+# those inputs fail DIFFERENTLY (another text, other rejected clauses) would stay hidden behind the key; so the
+# symptom each was recorded with is kept here, and any other symptom under the same key is reported under the key
+# "<key> [other symptom]", which no known finding matches.
+KNOWN_SYMPTOMS = {
+    "fixed:pattern('a//b')": ("//a//b//", ["tokens", "text-does-not-evaluate"]),
+    "fixed:pattern('/a')": ("///a//", ["tokens", "text-does-not-evaluate"]),
+    "fixed:pattern('a/')": ("//a///", ["tokens", "text-does-not-evaluate"]),
+    "fixed:pattern('')": ("////", ["tokens", "text-does-not-evaluate"]),
+    "fixed:[pattern('x//')]": ("[//x////]", ["tokens", "text-does-not-evaluate"]),
+    "fixed:map([[NULL, 1]])": ("<<<NULL => 1>>>", ["round-trip-equal", "round-trip-text"]),
+    "fixed:map([[1, 2], [NULL, NULL]])": ("<<<1 => 2, NULL => NULL>>>", ["round-trip-equal", "round-trip-text"]),
+    "fixed:[map([[NULL, 'a']])]": ("[<<<NULL => 'a'>>>]", ["round-trip-equal", "round-trip-text"]),
+    "equal-representatives:<<1, 1.0>> / <<1.0, 1>>": (["<<1>>", "<<1.0>>"], []),
+    "equal-representatives:<<0.0, -0.0>> / <<-0.0, 0.0>>": (["<<0.0>>", "<<-0.0>>"], []),
+    "equal-representatives:<<[1], [1.0]>> / <<[1.0], [1]>>": (["<<[1]>>", "<<[1.0]>>"], []),
+    "equal-representatives:<<<1 => 'x', 1.0 => 'x'>>> / <<<1.0 => 'x', 1 => 'x'>>>":
+        (["<<<1 => 'x'>>>", "<<<1.0 => 'x'>>>"], []),
+}
+
+
+def same_symptom(cx, key, text, clauses, what, case):
+    """a failure under the key of a known finding must be the failure that was recorded"""
+    rec = KNOWN_SYMPTOMS.get(key)
+    if rec is not None and (rec[0] != text or sorted(rec[1]) != sorted(clauses)):
+        cx.vio(key + " [other symptom]", what + f" - recorded for this known finding: text {rec[0]!r}, rejected at "
+                                                f"{rec[1]}; now: text {text!r}, rejected at {clauses}", case)
+
+
 def report_bad(cx, bad, events, meta, prefix):
     """one violation per rejected record, naming every rejected clause"""
     by = {}
@@ -550,11 +1058,13 @@ def report_bad(cx, bad, events, meta, prefix):
         by.setdefault(k, []).append(why)
     for k in sorted(by):
         e = events[k]
-        cx.vio(f"{prefix}:{meta[k]}", f"{by[k][0]}: the text {e['txt'][:60]!r} "
-                                      f"of {meta[k]} scanned as {_toks(e['toks'])[:160]}, re-evaluated "
-                                      f"ok={e['rtok']} same text={e['same']} one text over construction "
-                                      f"orders={e['cons']}: rejected by Val_Trace at {by[k]}",
-               {"kind": "trace", "events": [e], "meta": [meta[k]]})
+        what = (f"{by[k][0]}: the text {e['txt'][:60]!r} "
+                f"of {meta[k]} scanned as {_toks(e['toks'])[:160]}, re-evaluated "
+                f"ok={e['rtok']} same text={e['same']} one text over construction "
+                f"orders={e['cons']}: rejected by Val_Trace at {by[k]}")
+        case = {"kind": "trace", "events": [e], "meta": [meta[k]]}
+        cx.vio(f"{prefix}:{meta[k]}", what, case)
+        same_symptom(cx, f"{prefix}:{meta[k]}", e["txt"], by[k], what, case)
 
 
 def inexact_big_decimal(a):
@@ -587,7 +1097,11 @@ def run(run):
     quick = run.tier == "quick"
     rng = random.Random(run.seed)
     cx = Ctx(run)
-    res_u = run_tlc("ValLaws", "ValLaws_c08_quick" if quick else "ValLaws_c08_thorough", coverage=False, timeout=3000)
+    res_u, res_t = M.tlc_parallel([
+        ("ValLaws", "ValLaws_c08_quick" if quick else "ValLaws_c08_thorough", {"coverage": False, "timeout": 3000}),
+        ("ValText", "ValText_quick" if quick else "ValText_thorough", {"coverage": False, "timeout": 3000})])
+    run.add_tlc(res_t, "ValText: the pattern syntax (which payloads can be written, what the scanner takes) and the "
+                       "history machine (outer / inner object through every mutator; the text follows the value)")
     u = M.load_universe(run, None, "ValLaws: text form laws over the universe, the quote/scan machine and the "
                                    "natives that make numbers", res_u)
     n = u["n"]
@@ -631,11 +1145,21 @@ def run(run):
         check_decimal(cx, x)
     ints = [0, 1, -1, 999999, 10 ** 6 + 1, 12345678, -(10 ** 7), 2 ** 31, 2 ** 53 + 1, 2 ** 64, -(2 ** 64) - 1, 10 ** 40]
     ints += [rng.randint(-10 ** rng.randint(1, 40), 10 ** rng.randint(1, 40)) for _ in range(200 if quick else 5000)]
+    # ints of all magnitudes: also beyond the number of digits the host converts in one piece (4300)
+    ints += [10 ** 4299, 10 ** 4300 - 1, 10 ** 4300, -(10 ** 4300), 7 * 10 ** 5000 + 3, -(10 ** 9999) - 1, 2 ** 20000]
+    ints += [rng.randint(10 ** 4000, 10 ** rng.randint(4001, 6000)) * rng.choice([1, -1]) for _ in range(3 if quick else 40)]
     for m in ints:
         check_int(cx, m)
     run.sample({"DECIMAL": {"value": repr(xs[5]), "text": str(V.ValueDecimal(xs[5]))[:40]}})
 
     # numbers that natives make: the model's Make table, programs outside it, all magnitudes
+    n_via = check_model_paths(cx, u, res_u)
+    st_pat = check_patterns(cx, res_t)
+    st_hist = check_histories(cx, res_t)
+    if st_hist["covered"] != st_hist["edges"]:
+        raise MachineryError(f"history tour covered {st_hist['covered']} of {st_hist['edges']} transitions")
+    run.sample({"HISTORY": {"transitions": st_hist["edges"], "steps": st_hist["steps"], "restarts": st_hist["restarts"]},
+                "PATTERNS": st_pat})
     n_mk = check_model_makers(cx, u, res_u)
     n_mp = check_maker_programs(cx)
     n_mm = check_made_from_magnitudes(cx, xs if quick else xs[:4000], ints if quick else ints[:2000])
@@ -646,7 +1170,8 @@ def run(run):
         e = evs[len(evs) // 2]
         run.sample({"TRACE": {"v": M.literal(e["v"]), "toks": _toks(e["toks"])[:200], "rtok": e["rtok"],
                               "same": e["same"], "cons": e["cons"]}})
-    total = nvals + len(fx) + len(xs) + len(ints) + len(evs) + len(REP_CASES) + len(MIXED_CASES) + n_mk + n_mp + n_mm
+    total = (nvals + len(fx) + len(xs) + len(ints) + len(evs) + len(REP_CASES) + len(MIXED_CASES) + n_mk + n_mp + n_mm
+             + n_via + st_pat["values"] + st_hist["edges"])
     run.cov["traces_validated_against_impl"] = total
     run.cov["evaluations"] = cx.n_eval + cx.im.n
     run.cov["distinct_nontrivial"] = total
@@ -657,7 +1182,8 @@ def run(run):
     run.cov["universe"] = n
     run.cov["bounds"] = {"universe": n, "fixed": len(fx), "decimals": len(xs), "ints": len(ints),
                          "random_values": len(evs), "model_maker_calls": n_mk, "maker_program_numbers": n_mp,
-                         "maker_calls_on_magnitudes": n_mm}
+                         "maker_calls_on_magnitudes": n_mm, "observer_texts_of_the_universe": n_via,
+                         "patterns": st_pat, "history": st_hist}
     run.assumptions += [
         "blanks outside string and pattern literals are not compared (recorded as drift when they differ)",
         "the enumeration order of a set / map with elements of different kinds (or of patterns, sets, maps) is not "
@@ -701,7 +1227,7 @@ def replay(run, case):
     elif k == "decimal":
         check_decimal(cx, float.fromhex(case["hex"]))
     elif k == "int":
-        check_int(cx, int(case["n"]))
+        check_int(cx, int(case["n"], 0))
     elif k == "prog":
         check_date_difference(cx)
         check_identifier_keys(cx)
